@@ -388,7 +388,9 @@ LEVEL_TEXT = ("Line-AST level, full strength. Theorems (all line lists / circuit
               "blackbox-/pin-/x-free identifier-named circuit with an input and every set order, writer and reader succeed and the read-back circuit is "
               "the circuit itself, constants included (C15_bench_roundtrip).")
 LEVEL_NOTE = ("Trusted: Coq kernel + vm_compute, std++, Base/Api.v as a model of Circuit.add/connect/add_blackbox (validated by C07), translator shapes "
-              "for io.py (skeleton comparison, fail closed; the scan patterns are compared literally with the documented ones), the harness renderer "
-              "and tokeniser. The character-level scanning layer (re.findall with the four patterns) is NOT modelled: it is tied by correspondence only, "
-              "on generated renderings with whitespace/case/order variants.")
+              "for io.py (skeleton comparison, fail closed; the scan patterns are parsed by Python's own pattern parser into regex terms and also compared "
+              "literally with the documented ones), the harness renderer and tokeniser. Character level: the scanning layer (comment removal, re.findall "
+              "with the four patterns, replace/split) is modelled executably (Model/Regex.v, Model/BenchScan.v) and compared with the harness line list and "
+              "with the real reader on every generated text; proved for all identifiers/operand lists: each pattern recognises and decodes its canonical "
+              "statement where it starts; NOT proved: absence of false matches elsewhere and the findall composition (decided per case).")
 TECHNIQUE = "Coq proof (per-line denotation, closed-form reader/writer theorems) + regenerated tables + vm_compute correspondence and denotation oracle"
